@@ -60,3 +60,314 @@ pub fn pseudo4(src: &[u8], dst: &[u8], proto: u8, len: usize) -> u32 {
 pub fn pseudo6(src: &[u8], dst: &[u8], next: u8, len: usize) -> u32 {
     ones_sum(src) + ones_sum(dst) + next as u32 + (len as u32 >> 16) + (len as u32 & 0xffff)
 }
+
+// ------------------------------------------------------------------------------------------
+// Contract stub for `proto::repl` (the application layer as seen from layer 4), with a
+// recorder.  Contract (each clause is what the responder lemmas establish or weaker):
+//  * returns None or Some(non-empty reply) - here 1..=3 arbitrary bytes;
+//  * never touches client_info.port.src; may rewrite client_info.port.dst (STUN change-port);
+//  * touches no other field of client_info.
+// ------------------------------------------------------------------------------------------
+pub struct ProtoRec {
+    pub calls: u32,
+    pub tcb_some: bool,
+    pub data_len: usize,
+    pub data: [u8; 8],
+    pub reply_len: usize, // 0 = None
+    pub reply: [u8; 3],
+    pub transport: Option<pnet::packet::ip::IpNextHeaderProtocol>,
+    pub cookie: Option<u32>,
+    /// configured by the harness (CONCRETE per instance): length of the reply when the stub
+    /// answers; whether it answers at all stays symbolic
+    pub cfg_reply_len: usize,
+}
+pub static mut PROTO_REC: ProtoRec = ProtoRec {
+    calls: 0,
+    tcb_some: false,
+    data_len: 0,
+    data: [0; 8],
+    reply_len: 0,
+    reply: [0; 3],
+    transport: None,
+    cookie: None,
+    cfg_reply_len: 2,
+};
+pub fn proto_rec() -> &'static mut ProtoRec {
+    unsafe { &mut *std::ptr::addr_of_mut!(PROTO_REC) }
+}
+pub fn proto_repl_stub<'a>(
+    data: &'a [u8],
+    _m: &Masscanned,
+    ci: &mut ClientInfo,
+    tcb: Option<&mut crate::proto::TCPControlBlock>,
+) -> Option<Vec<u8>> {
+    let rec = proto_rec();
+    rec.calls += 1;
+    rec.tcb_some = tcb.is_some();
+    rec.data_len = data.len();
+    let mut i = 0;
+    while i < data.len() && i < 8 {
+        rec.data[i] = data[i];
+        i += 1;
+    }
+    rec.transport = ci.transport;
+    rec.cookie = ci.cookie;
+    if kani::any() {
+        ci.port.dst = Some(kani::any());
+    }
+    if kani::any() {
+        let n = rec.cfg_reply_len;
+        let b: [u8; 3] = kani::any();
+        rec.reply_len = n;
+        rec.reply = b;
+        let mut v = Vec::with_capacity(4);
+        let mut i = 0;
+        while i < n {
+            v.push(b[i]);
+            i += 1;
+        }
+        Some(v)
+    } else {
+        rec.reply_len = 0;
+        None
+    }
+}
+
+// ------------------------------------------------------------------------------------------
+// Contract stub for `synackcookie::generate` in the layer-4 harnesses: a deterministic
+// function of (src ip, dst ip, src port, dst port, key) is modelled, for the single flow a
+// harness looks at, by ONE arbitrary u32 drawn in the harness prologue; the arguments of
+// every call are recorded so that the harness can assert that tcp::repl asked for exactly the
+// frame's own 4-tuple and key.  That `generate` really is such a function (and equals
+// SipHash-2-4) is decided on the real code by the c06_cookie_* harnesses.
+// ------------------------------------------------------------------------------------------
+pub struct CookieRec {
+    pub value: u32,
+    pub calls: u32,
+    pub args_ok: bool,
+    pub ip: crate::client::ClientInfoSrcDst<IpAddr>,
+    pub sport: u16,
+    pub dport: u16,
+    pub key: [u64; 2],
+}
+pub static mut COOKIE_REC: CookieRec = CookieRec {
+    value: 0,
+    calls: 0,
+    args_ok: true,
+    ip: crate::client::ClientInfoSrcDst { src: None, dst: None },
+    sport: 0,
+    dport: 0,
+    key: [0, 0],
+};
+pub fn cookie_rec() -> &'static mut CookieRec {
+    unsafe { &mut *std::ptr::addr_of_mut!(COOKIE_REC) }
+}
+pub fn generate_stub(ci: &ClientInfo, key: &[u64; 2]) -> Result<u32, std::io::Error> {
+    let rec = cookie_rec();
+    rec.calls += 1;
+    if !(ip_eq(&ci.ip.src, &rec.ip.src) && ip_eq(&ci.ip.dst, &rec.ip.dst) && ci.port.src == Some(rec.sport) && ci.port.dst == Some(rec.dport) && *key == rec.key) {
+        rec.args_ok = false;
+    }
+    Ok(rec.value)
+}
+/// IpAddr equality without the memcmp loop (keeps unwind bounds independent of address size)
+pub fn ip_eq(a: &Option<IpAddr>, b: &Option<IpAddr>) -> bool {
+    match (a, b) {
+        (None, None) => true,
+        (Some(IpAddr::V4(x)), Some(IpAddr::V4(y))) => u32::from(*x) == u32::from(*y),
+        (Some(IpAddr::V6(x)), Some(IpAddr::V6(y))) => u128::from(*x) == u128::from(*y),
+        _ => false,
+    }
+}
+
+// ------------------------------------------------------------------------------------------
+// Contract stubs for the layer-4 entry points as seen from layer 3: each returns None or a
+// packet of CONCRETE length `cfg_len` (set by the harness) whose bytes are all arbitrary
+// (the harness oracle must hold for every transport packet, well-formed or not).
+// ------------------------------------------------------------------------------------------
+pub const L4_MAX: usize = 40;
+pub struct L4Rec {
+    pub calls: u32,
+    pub cfg_len: usize,
+    pub some: bool,
+    pub bytes: [u8; L4_MAX],
+    pub req_len: usize,
+    pub nd_target: Option<Ipv6Addr>,
+    /// harness-configured: the self-IP list is present and contains `cfg_s6`
+    pub cfg_s6: Option<Ipv6Addr>,
+}
+pub static mut L4_REC: L4Rec = L4Rec {
+    calls: 0,
+    cfg_len: 8,
+    some: false,
+    bytes: [0; L4_MAX],
+    req_len: 0,
+    nd_target: None,
+    cfg_s6: None,
+};
+pub fn l4_rec() -> &'static mut L4Rec {
+    unsafe { &mut *std::ptr::addr_of_mut!(L4_REC) }
+}
+fn l4_bytes() -> Option<Vec<u8>> {
+    let rec = l4_rec();
+    rec.calls += 1;
+    if kani::any() {
+        let b: [u8; L4_MAX] = kani::any();
+        rec.bytes = b;
+        rec.some = true;
+        let n = rec.cfg_len;
+        let mut v = Vec::with_capacity(L4_MAX);
+        let mut i = 0;
+        while i < n {
+            v.push(b[i]);
+            i += 1;
+        }
+        Some(v)
+    } else {
+        rec.some = false;
+        None
+    }
+}
+pub fn l4_tcp_stub<'a, 'b>(
+    req: &'a pnet::packet::tcp::TcpPacket,
+    _m: &Masscanned,
+    _ci: &mut ClientInfo,
+) -> Option<pnet::packet::tcp::MutableTcpPacket<'b>> {
+    use pnet::packet::Packet;
+    l4_rec().req_len = req.packet().len();
+    match l4_bytes() {
+        Some(v) => pnet::packet::tcp::MutableTcpPacket::owned(v),
+        None => None,
+    }
+}
+pub fn l4_udp_stub<'a, 'b>(
+    req: &'a pnet::packet::udp::UdpPacket,
+    _m: &Masscanned,
+    _ci: &mut ClientInfo,
+) -> Option<pnet::packet::udp::MutableUdpPacket<'b>> {
+    use pnet::packet::Packet;
+    l4_rec().req_len = req.packet().len();
+    match l4_bytes() {
+        Some(v) => {
+            // contract of udp::repl (lemma c03_udp_*): the length field is the datagram length
+            let n = v.len();
+            let mut p = pnet::packet::udp::MutableUdpPacket::owned(v).unwrap();
+            p.set_length(n as u16);
+            Some(p)
+        }
+        None => None,
+    }
+}
+pub fn l4_icmpv4_stub<'a, 'b>(
+    req: &'a pnet::packet::icmp::IcmpPacket,
+    _m: &Masscanned,
+    _ci: &ClientInfo,
+) -> Option<pnet::packet::icmp::MutableIcmpPacket<'b>> {
+    use pnet::packet::Packet;
+    l4_rec().req_len = req.packet().len();
+    match l4_bytes() {
+        Some(v) => pnet::packet::icmp::MutableIcmpPacket::owned(v),
+        None => None,
+    }
+}
+/// ICMPv6 contract (lemmas c05_icmp6_*): (None, None), or an echo reply with no substituted
+/// address, or a Neighbour Advertisement (type 136) together with the solicited target, which
+/// belongs to the self-IP list whenever one is configured.
+pub fn l4_icmpv6_stub<'a, 'b>(
+    req: &'a pnet::packet::icmpv6::Icmpv6Packet,
+    _m: &Masscanned,
+    _ci: &ClientInfo,
+) -> (Option<pnet::packet::icmpv6::MutableIcmpv6Packet<'b>>, Option<Ipv6Addr>) {
+    use pnet::packet::Packet;
+    l4_rec().req_len = req.packet().len();
+    match l4_bytes() {
+        Some(mut v) => {
+            if kani::any() {
+                v[0] = 136;
+                let t = match l4_rec().cfg_s6 {
+                    Some(a) => a,
+                    None => any_ip6(),
+                };
+                l4_rec().bytes[0] = 136;
+                l4_rec().nd_target = Some(t);
+                (pnet::packet::icmpv6::MutableIcmpv6Packet::owned(v), Some(t))
+            } else {
+                kani::assume(v[0] != 136);
+                l4_rec().nd_target = None;
+                (pnet::packet::icmpv6::MutableIcmpv6Packet::owned(v), None)
+            }
+        }
+        None => (None, None),
+    }
+}
+
+// ------------------------------------------------------------------------------------------
+// Contract stubs for the layer-3 / ARP entry points as seen from layer 2 (same recorder).
+// ------------------------------------------------------------------------------------------
+pub fn l3_arp_stub<'a, 'b>(
+    req: &'a pnet::packet::arp::ArpPacket,
+    _m: &Masscanned,
+) -> Option<pnet::packet::arp::MutableArpPacket<'b>> {
+    use pnet::packet::Packet;
+    l4_rec().req_len = req.packet().len();
+    match l4_bytes() {
+        Some(v) => pnet::packet::arp::MutableArpPacket::owned(v),
+        None => None,
+    }
+}
+/// contract of ipv4::repl (lemma c04_ipv4_*): version 4, IHL >= 5, header inside the packet
+pub fn l3_ipv4_stub<'a, 'b>(
+    req: &'a pnet::packet::ipv4::Ipv4Packet,
+    _m: &Masscanned,
+    _ci: &mut ClientInfo,
+) -> Option<pnet::packet::ipv4::MutableIpv4Packet<'b>> {
+    use pnet::packet::Packet;
+    l4_rec().req_len = req.packet().len();
+    match l4_bytes() {
+        Some(v) => {
+            let ihl = (v[0] & 0x0f) as usize;
+            kani::assume(v[0] >> 4 == 4 && ihl >= 5 && 4 * ihl <= v.len());
+            pnet::packet::ipv4::MutableIpv4Packet::owned(v)
+        }
+        None => None,
+    }
+}
+pub fn l3_ipv6_stub<'a, 'b>(
+    req: &'a pnet::packet::ipv6::Ipv6Packet,
+    _m: &Masscanned,
+    _ci: &mut ClientInfo,
+) -> Option<pnet::packet::ipv6::MutableIpv6Packet<'b>> {
+    use pnet::packet::Packet;
+    l4_rec().req_len = req.packet().len();
+    match l4_bytes() {
+        Some(v) => pnet::packet::ipv6::MutableIpv6Packet::owned(v),
+        None => None,
+    }
+}
+
+/// Straight-line replacement for `<MacAddr as FromStr>::from_str` on the fixed-format
+/// literal the code parses ("xx:xx:xx:xx:xx:xx"); the real parser drags memchr loops into
+/// every layer-2 harness (measured: 145 s of symbolic execution for a constant).
+pub fn mac_from_str_stub(s: &str) -> Result<MacAddr, pnet::util::ParseMacAddrErr> {
+    let b = s.as_bytes();
+    fn hx(c: u8) -> u8 {
+        if c >= b'a' {
+            c - b'a' + 10
+        } else if c >= b'A' {
+            c - b'A' + 10
+        } else {
+            c - b'0'
+        }
+    }
+    if b.len() != 17 {
+        return Err(pnet::util::ParseMacAddrErr::TooFewComponents);
+    }
+    Ok(MacAddr::new(
+        hx(b[0]) * 16 + hx(b[1]),
+        hx(b[3]) * 16 + hx(b[4]),
+        hx(b[6]) * 16 + hx(b[7]),
+        hx(b[9]) * 16 + hx(b[10]),
+        hx(b[12]) * 16 + hx(b[13]),
+        hx(b[15]) * 16 + hx(b[16]),
+    ))
+}
